@@ -248,6 +248,95 @@ class Terms(object):
             out.append((it, self.term(c.args[0], n), conds))
         return out or None
 
+    def facts_by_path(self, node, depth=4):
+        """Like all_facts, but where ``node`` is a merge point (e.g. after
+        ``a or b``) one fact list per incoming path, each including the
+        conditions of the branch edges on that path.  Returns
+        [(entry node of that path, [(term, polarity)...])]."""
+        preds = [p for p in node.pred if p.id in self.reached and
+                 not self.cfg.dominates(node, p)]
+        if len(preds) <= 1 or depth == 0:
+            own = []
+            if len(preds) == 1 and preds[0].kind == "assume" and \
+                    not self.cfg.dominates(preds[0], node):
+                pass
+            return [(node, self.all_facts(node))]
+        out = []
+        for p in preds:
+            for ent, facts in self.facts_by_path(p, depth - 1):
+                facts = list(facts)
+                if p.kind == "assume":
+                    c = self.cond(p.ast, p, p.polarity)
+                    if c not in facts:
+                        facts.append(c)
+                out.append((p, facts))
+        return out
+
+    def quantified(self, node, extra=(), facts=None):
+        """Facts of the form 'no / some / every element of an iterable
+        satisfies a condition' known at ``node``, whichever way the search
+        is written: ``any(c for x in it)`` / ``all(...)`` tested by a
+        dominating branch, or a ``for x in it`` loop that leaves early when
+        the condition holds and reaches ``node`` only when exhausted.
+        Returns [(kind, iterable term, [(condition term, polarity)...])] with
+        kind in "none", "some", "all", "notall"; conditions are over
+        ("elem", iterable term)."""
+        out = []
+        for t, pol in list(self.all_facts(node) if facts is None
+                           else facts) + list(extra):
+            if t[0] == "call" and t[1] in (("global", "any"),
+                                           ("global", "all")) and \
+                    len(t[2]) == 1 and t[2][0][0] in ("genexp", "listcomp") \
+                    and len(t[2][0][2]) == 1:
+                ge = t[2][0]
+                it, conds = ge[2][0]
+                cs = []
+                for c in (ge[1],) + tuple(conds):
+                    p_ = True
+                    while c[0] == "not":
+                        c, p_ = c[1], not p_
+                    cs.append((c, p_))
+                if t[1][1] == "any":
+                    out.append(("some" if pol else "none", it, cs))
+                else:
+                    out.append(("all" if pol else "notall", it, cs))
+        cfg = self.cfg
+        dom = cfg.dominators()[node.id]
+        for lid, head in cfg.loop_head.items():
+            if head.kind != "iter":
+                continue
+            ex = [n for n in head.succ if n.kind == "join" and
+                  n.label == "forelse"]
+            if not ex or ex[0].id not in dom:
+                continue
+            # ``node`` is reached only when the loop ran out of elements
+            body = [n for n in head.succ if n.kind == "join" and
+                    n.label == "forbody"][0]
+            lp = head.ast
+            inside = [n for n in cfg.nodes if n.kind == "assume" and
+                      n.ast is not None and _inside_fn(n.ast, lp) and
+                      n.id in self.reached]
+            # the conditions under which an iteration comes back to the head
+            gates = []
+            for a in inside:
+                if self.cfg.must_pass(body, lambda n, a=a: n is a,
+                                      targets=[head]):
+                    gates.append(a)
+            if not gates:
+                continue
+            # every other way out of a gate's sibling leaves the loop for
+            # good (return / break / raise): then the gates held for every
+            # element
+            it = self.term(lp.iter, head)
+            cs = [self.cond(a.ast, a, a.polarity) for a in gates]
+            # "none satisfies C" is  "all satisfy not C"
+            out.append(("none", it, [(c, not p_) for c, p_ in cs])
+                       if len(cs) == 1 else ("allof", it, cs))
+            if len(cs) > 1:
+                for c, p_ in cs:
+                    pass
+        return out
+
     def must_pass(self, src, pred, targets=None):
         """cfg.must_pass on the executions allowed by the hypotheses."""
         avoid = [self.cfg.nodes[i] for i in self.dead]
@@ -952,6 +1041,31 @@ def mk_cmp(opn, a, b):
 
 def is_none(t):
     return mk_cmp("Is", t, ("const", None))
+
+
+def unsite(t):
+    """The term without allocation sites (structural comparison of values
+    that are built, not shared)."""
+    if not isinstance(t, tuple):
+        return t
+    if t and t[0] == "new":
+        return unsite(t[2])
+    if t and t[0] == "const":
+        return t
+    return tuple(unsite(x) for x in t)
+
+
+def split_cond(t, pol):
+    """The atomic facts implied by condition ``t`` having truth value
+    ``pol``: conjunctions that hold / disjunctions that fail are split."""
+    while t[0] == "not":
+        t, pol = t[1], not pol
+    if (t[0] == "and" and pol) or (t[0] == "or" and not pol):
+        out = []
+        for x in t[1:]:
+            out.extend(split_cond(x, pol))
+        return out
+    return [(t, pol)]
 
 
 def strip_new(t):
